@@ -4,6 +4,7 @@ package hcpc
 
 import (
 	"bytes"
+	"encoding/hex"
 	"math/big"
 
 	"github.com/ethereum/go-ethereum/common"
@@ -12,6 +13,7 @@ import (
 
 	cpctypes "github.com/EscanBE/evermint/v12/x/cpc/types"
 	"github.com/EscanBE/evermint/v12/zzverif/env"
+	"github.com/EscanBE/evermint/v12/zzverif/model"
 	"github.com/EscanBE/evermint/v12/zzverif/verif"
 )
 
@@ -94,6 +96,21 @@ func H_C12_1_StaticContext() {
 func H_C12_2_ReadOnlyMethods() {
 	w := newWorld()
 	e := w.e
+	if verif.Bool("secondContractWrittenDirectly") {
+		// a contract record that did not go through DeployErc20CustomPrecompiledContract (e.g. it predates a
+		// software upgrade): written with the keeper's store API; views are then called on THIS contract
+		addr := common.HexToAddress("0xcc00000000000000000000000000000000000099")
+		meta := cpctypes.CustomPrecompiledContractMeta{Address: addr.Bytes(), CustomPrecompiledType: cpctypes.CpcTypeErc20, Name: "Evm Token",
+			TypedMeta: string(model.MustMarshalJson(cpctypes.Erc20CustomPrecompiledContractMeta{Symbol: "EVM", Decimals: 18, MinDenom: env.EvmDenom}))}
+		if !verif.Symbolic() {
+			meta.TypedMeta = `{"symbol":"EVM","decimals":18,"min_denom":"wei"}`
+		}
+		if err := e.CK.SetCustomPrecompiledContractMeta(e.Ctx, meta, true); err != nil {
+			panic(err)
+		}
+		w.contract = addr
+	}
+	wholeBefore := e.MS.Snapshot()
 	sdb := e.NewStateDB(e.Ctx, Coinbase)
 	who := pick("who")
 	var input []byte
@@ -110,6 +127,10 @@ func H_C12_2_ReadOnlyMethods() {
 	_, err := w.call(sdb, X2, input, verif.Bool("static"))
 	verif.Assert("view-succeeds", err == nil)
 	verif.Assert("view-changes-nothing", verif.And(w.sameAsRef(sdb), len(sdb.GetTransactionLogs()) == logs0))
+	// not even after commit: no store of any module differs (apart from the account the EVM creates for the
+	// precompile address when it is called the first time)
+	_ = sdb.CommitMultiStore(false)
+	verif.Assert("view-leaves-bank-and-cpc-stores", verif.And(model.SameKV(wholeBefore.KV(model.BankKey), e.MS.KV(model.BankKey)), model.SameKV(wholeBefore.KV(env.CpcKey), e.MS.KV(env.CpcKey))))
 }
 
 // H_C12_3_MethodTable (concrete enumeration over the real registry): every state-changing method of every
@@ -129,10 +150,18 @@ func H_C12_3_MethodTable() {
 	contracts := e.CK.GetAllCustomPrecompiledContracts(e.Ctx)
 	verif.Assert("three-contract-types-registered", len(contracts) == 3)
 	nWrite := 0
+	kinds := map[uint32]string{cpctypes.CpcTypeErc20: "erc20", cpctypes.CpcTypeStaking: "staking", cpctypes.CpcTypeBech32: "bech32"}
 	for _, c := range contracts {
 		ex := c.GetMethodExecutors()
 		verif.Assert("contract-has-methods", len(ex) > 0)
+		abi := model.AbiMutability[kinds[c.GetMetadata().CustomPrecompiledType]]
+		verif.Assert("every-abi-function-has-an-executor", len(ex) == len(abi))
 		for i, m := range ex {
+			// the ABI JSON in the tree declares which functions are views: an executor may call itself read-only
+			// (and thereby be reachable under STATICCALL, for free) only if the ABI says view / pure
+			mut, known := abi[hex.EncodeToString(m.Method4BytesSignatures())]
+			verif.Assert("executor-selector-is-in-the-abi", known)
+			verif.Assert("read-only-flag-matches-abi-mutability", m.ReadOnly() == (mut == "view" || mut == "pure"))
 			verif.Assert("selector-is-4-bytes", len(m.Method4BytesSignatures()) == 4)
 			if !m.ReadOnly() {
 				nWrite++
